@@ -898,11 +898,44 @@ def rpc_unconventional_output(spec, op):
     return G.effective_style(spec, op) == "rpc" and op.get("out") is not None and op["out"]["name"] != op["name"] + "Response"
 
 
+RPC_OUT_TAG = "[rpc-out] "
+
+
 def covered_spec(a, msg):
+    """C17-rpc-output-wrapper-name and nothing else.  The two spec oracles emit a message that STARTS with
+    RPC_OUT_TAG only after they have established the exact failure the unchanged code shows (see
+    `rpc_out_known_mapper` / `rpc_out_known_error`): the response wrapper of an rpc operation whose output message
+    is not called <op>Response is named after that message (right namespace, right place), so that the conformant
+    <op>Response document is rejected as an unknown Body property while the same document with the wrapper renamed
+    to the message name is accepted -- and every other check on that operation has passed.  Any other failure of
+    an rpc operation (wrong wrapper namespace, no wrapper, missing Fault, request side, a response that fails to
+    parse for another reason ...) carries no tag and is reported."""
     spec = a["spec"]
-    if "[rpc-out]" in msg and any(rpc_unconventional_output(spec, op) for op in spec["ops"]):
+    if msg.startswith(RPC_OUT_TAG) and any(rpc_unconventional_output(spec, op) for op in spec["ops"]):
         return "C17-rpc-output-wrapper-name"
     return None
+
+
+def rpc_out_known_mapper(spec, op, got, want_body):
+    """the mapper-level shape of the finding: exactly one Body entry, in the prescribed (soap:body) namespace,
+    named after the output message instead of <op>Response"""
+    return (
+        rpc_unconventional_output(spec, op)
+        and len(want_body) == 1
+        and got == [(op["out"]["name"], want_body[0][1])]
+    )
+
+
+def rpc_out_known_error(spec, op, e):
+    """the end-to-end shape of the finding: the parser rejects the conformant wrapper element (and only it) as an
+    unknown property of the output Body"""
+    if not rpc_unconventional_output(spec, op):
+        return False
+    if type(e).__name__ != "ParserError":
+        return False
+    text = str(e)
+    wrapper = qn(op.get("body_ns"), op["name"] + "Response")
+    return "Unknown property" in text and text.rstrip().endswith(":" + wrapper)
 
 
 def in_fragment(spec):
@@ -967,6 +1000,7 @@ def check_mapper(a):
     by = {c.qname: c for c in classes}
 
     def check_op(op):
+        known_op = []
         base = f"{{{spec['tns']}}}{spec['pt']}_{op['name']}"
         svc = by.get(base)
         if svc is None or svc.tag != "BindingOperation":
@@ -1005,10 +1039,27 @@ def check_mapper(a):
             body = inner["Body"]
             want_body = prescribed_body(spec, op, direction)
             got = [(x.name, x.namespace) for x in body.attrs if x.name != "Fault"]
-            if G.effective_style(spec, op) == "rpc" and direction == "out" and [g[0] for g in got] != [w[0] for w in want_body]:
-                return f"[rpc-out] {base + sfx}: rpc response wrapper {got} != {want_body}"
-            if len(got) != len(want_body) or any(g[0] != w[0] or (w[1] != "*" and g[1] != w[1]) for g, w in zip(got, want_body)):
+            if direction == "out" and rpc_out_known_mapper(spec, op, got, want_body):
+                # the listed finding, and exactly it; the remaining checks on this operation still run
+                known_op.append(f"{RPC_OUT_TAG}{base + sfx}: rpc response wrapper {got} != {want_body}")
+            elif len(got) != len(want_body) or any(g[0] != w[0] or (w[1] != "*" and g[1] != w[1]) for g, w in zip(got, want_body)):
                 return f"{base + sfx}: body entries {got} != {want_body}"
+            if G.effective_style(spec, op) == "rpc":
+                # the wrapper is of the message's type: a class named after the message, in the WSDL's namespace,
+                # whose entries are the parts (all of them: rpc bodies ignore parts=) in message order
+                m = op["in"] if direction == "in" else op["out"]
+                battrs = [x for x in body.attrs if x.name != "Fault"]
+                mq = f"{{{spec['tns']}}}{m['name']}"
+                if [x.types[0].qname for x in battrs] != [mq]:
+                    return f"{base + sfx}: rpc wrapper type {[x.types[0].qname for x in battrs]} != {[mq]}"
+                mc = by.get(mq)
+                if mc is None:
+                    return f"{base + sfx}: no class for the rpc message {mq}"
+                gotp = [(x.name, x.types[0].qname) for x in mc.attrs]
+                wantp = [((p["ref"] if p["kind"] == "element" else p["name"]),
+                          (f"{{{G.XSD_NS}}}{p['ref'][4:]}" if p["ref"].startswith("xsd:") else f"{{{spec['xns']}}}{p['ref']}")) for p in m["parts"]]
+                if gotp != wantp:
+                    return f"{base + sfx}: rpc part accessors {gotp} != {wantp}"
             if direction == "out":
                 fa = [x for x in body.attrs if x.name == "Fault"]
                 if len(fa) != 1 or fa[0].namespace != ENV or body.attrs[-1] is not fa[0]:
@@ -1026,7 +1077,7 @@ def check_mapper(a):
             else:
                 if any(x.restrictions.min_occurs is not None for x in body.attrs):
                     return f"{base + sfx}: request Body entries must be required"
-        return None
+        return known_op[0] if known_op else None
 
     known = None
     for op in spec["ops"]:
@@ -1123,8 +1174,9 @@ def child_content_xml(prefix_ns, name, ns, values):
     return f'<x:{name} xmlns:x="{ns}"><x:a>{values[0]}</x:a><x:n>{values[1]}</x:n></x:{name}>'
 
 
-def canned_response(spec, op, fault=None, fault_with_header=False):
-    """a response envelope written from the WSDL alone; returns (bytes, leaves)"""
+def canned_response(spec, op, fault=None, fault_with_header=False, wrapper=None):
+    """a response envelope written from the WSDL alone; returns (bytes, leaves).
+    `wrapper` overrides the name of the rpc wrapper element (default: the conformant <op>Response)"""
     leaves = []
     n = [500]
 
@@ -1166,7 +1218,7 @@ def canned_response(spec, op, fault=None, fault_with_header=False):
             detail = "<detail>" + elem(fault) + "</detail>"
         body = f"<e:Fault><faultcode>e:Server</faultcode><faultstring>boom</faultstring><faultactor>urn:actor</faultactor>{detail}</e:Fault>"
     elif G.effective_style(spec, op) == "rpc":
-        w = op["name"] + "Response"
+        w = wrapper or (op["name"] + "Response")
         inner = "".join(elem(p["ref"]) if p["kind"] == "element" else typed(p["name"], p["ref"], ' xmlns=""') for p in op["out"]["parts"])
         body = f'<w:{w} xmlns:w="{op["body_ns"]}">{inner}</w:{w}>'
     else:
@@ -1245,15 +1297,19 @@ def check_e2e(a):
             client.transport = tr
             user = {"X-Trace": "1"}
             result = None
+            known_op = None
             try:
                 result = client.send(req, headers=user)
             except Exception as e:  # noqa: BLE001
                 if not tr.calls:
                     return f"client.send raised before posting: {type(e).__name__}: {e}"
                 if resp is not None:
-                    if G.effective_style(spec, op) == "rpc" and rpc_unconventional_output(spec, op):
-                        return f"[rpc-out] response with wrapper <{op['name']}Response> not parsed: {type(e).__name__}: {e}"
-                    return f"client.send could not parse the response of {op['name']}: {type(e).__name__}: {e}"
+                    if rpc_out_known_error(spec, op, e):
+                        # the listed finding -- provided the rest of this operation (request side, the response
+                        # with the wrapper the code expects, faults) checks below; reported last
+                        known_op = f"{RPC_OUT_TAG}response with wrapper <{op['name']}Response> not parsed: {type(e).__name__}: {e}"
+                    else:
+                        return f"client.send could not parse the response of {op['name']}: {type(e).__name__}: {e}"
             if len(tr.calls) != 1:
                 return f"{len(tr.calls)} posts"
             url, data, headers = tr.calls[0]
@@ -1299,6 +1355,15 @@ def check_e2e(a):
                 return f"payload values {sorted(leaf_texts(root))} != request values {sorted(cnt.leaves)}"
             # ---- response
             if resp is not None:
+                if known_op:
+                    # what the unchanged code does instead: it takes the wrapper named after the output message;
+                    # everything else about the response must be as for any other operation
+                    alt, rleaves = canned_response(spec, op, wrapper=op["out"]["name"])
+                    tr.response = alt
+                    try:
+                        result = client.send(req)
+                    except Exception as e:  # noqa: BLE001
+                        return f"rpc response of {op['name']} parsed neither with wrapper <{op['name']}Response> nor <{op['out']['name']}>: {type(e).__name__}: {e}"
                 if not isinstance(result, svc.output):
                     return f"send returned {type(result).__name__}, not {svc.output.__name__}"
                 if sorted(object_leaves(result)) != sorted(rleaves):
@@ -1327,7 +1392,7 @@ def check_e2e(a):
                         return f"SOAP fault not returned: {f!r}"
                     if sorted(object_leaves(res2)) != sorted(fleaves):
                         return f"fault detail lost: {sorted(object_leaves(res2))} != {sorted(fleaves)}"
-            return None
+            return known_op
 
         # every operation is judged; a failure that falls under a known finding does not hide
         # a different failure of another operation of the same definition
@@ -1370,12 +1435,15 @@ def check_headers(a):
     c = a["config"]
     client = Client(real_config(c), transport=object())
     h = {k: v for k, v in a["headers"]}
+    given = dict(h)
     try:
-        r = client.prepare_headers(dict(h))
+        r = client.prepare_headers(given)
     except ClientValueError:
         return None if c["transport"] != SOAP else "ClientValueError for the SOAP-over-HTTP transport"
     except Exception as e:  # noqa: BLE001
         return f"{type(e).__name__} leaked"
+    if given != h or list(given) != list(h):
+        return f"prepare_headers modified the caller's headers {h} -> {given}"
     if c["transport"] != SOAP:
         return f"headers prepared for unsupported transport {c['transport']!r}"
     want = dict(h)
@@ -1489,7 +1557,7 @@ def finding_rpc_out():
     s["ops"] = [s["ops"][0]]
     s["ops"][0]["out"]["name"] = "getAOut"
     msg = check_e2e({"spec": s})
-    return (bool(msg) and "[rpc-out]" in msg, msg or "no violation")
+    return (bool(msg) and msg.startswith(RPC_OUT_TAG) and covered_spec({"spec": s}, msg) == "C17-rpc-output-wrapper-name", msg or "no violation")
 
 
 FINDINGS = {
